@@ -81,9 +81,20 @@ def isDpCompile (line : String) : Bool := (words line).head? == some "dpcompile"
     parallelism, request order and schedule. -/
 def isDpPlain (line : String) : Bool := (words line).head? == some "dpplain"
 
+/-- A custom descriptor.proto with a syntax error, compiled only as an implicit dependency of
+    valid requested files: its errors are handed to the configured reporter, so the reporter
+    contract decides the outcome — `ErrInvalidSource` for a reporter that accepts everything, the
+    reporter's own error for one that aborts. -/
+def isDpBroken (line : String) : Bool := (words line).head? == some "dpbroken"
+
+def dpBrokenModel (line : String) : String :=
+  if (words line).contains "rep=abort" then "res=reporter-error reported=some"
+  else "res=invalid-source reported=some"
+
 def execModel (line : String) : String :=
   if isDpCompile line then "nondet" else
   if isDpPlain line then "ok" else
+  if isDpBroken line then dpBrokenModel line else
   match parseExec line with
   | none => "bad-op"
   | some c =>
@@ -130,6 +141,9 @@ def dpSpec (ans : String) : String :=
 
 def execSpec (line ans : String) : String :=
   if isDpCompile line then dpSpec ans else
+  if isDpBroken line then
+    (if ans == dpBrokenModel line then "holds"
+     else s!"fails reporter-contract errors of an implicitly compiled descriptor.proto reached the reporter but Compile answered {ans}") else
   if isDpPlain line then
     (if ans == "ok" then "holds"
      else if ans.startsWith "hang" then s!"fails outcome-depends-on-schedule hang with a custom descriptor.proto ({ans})"
